@@ -74,6 +74,13 @@ type Ev struct {
 	Wrote                []byte // what it wrote through the Get pointer (legal: the world is unlocked)
 }
 
+// Spawn is an entity created by the listener inside a notification.
+type Spawn struct {
+	H      ecs.Entity
+	Set    uint32
+	Target ecs.Entity
+}
+
 // Sys wraps one real world with everything that belongs to it.
 type Sys struct {
 	Name      string
@@ -117,9 +124,26 @@ type Sys struct {
 	// queries that the listener opened inside a removal notification and did NOT close before returning (legal: a query
 	// may be opened on a locked world and outlive the removal's own lock); released by Apply right after the operation
 	cloneOf     []ecs.Entity
+
+	// a listener that detaches itself (SetListener(nil)) inside the LAST removal notification of an operation; the
+	// engine re-installs it right after the operation
+	detachAt int
+	rmSeen   int
+	detached bool
+	OnNotify    func() // C19: lets the scheduler run a step of ANOTHER world in the middle of this world's notification
+
+	// entities the all-events listener created inside a notification of the running operation (world unlocked: legal)
+	spawnOn      bool // plan knob
+	SpawnOK      bool // set by the engine before each operation (room in the model, no lock-step twins)
+	inApply      bool
+	spawning     bool
+	spawnSeq     int
+	Spawned      []Spawn
+	SpawnTrouble string
 	kept        []*ecs.Query
 	KeptTrouble string
 	KeptSeen    int
+	DetachSeen  int
 }
 
 var allSubs = event.Subscription(63)
@@ -319,6 +343,9 @@ func (l *recListener) Subscriptions() event.Subscription { return l.subs }
 func (l *recListener) Components() *ecs.Mask             { return l.comp }
 func (l *recListener) Notify(w *ecs.World, e ecs.EntityEvent) {
 	s := l.s
+	if l.sink < 0 && s.OnNotify != nil {
+		s.OnNotify()
+	}
 	ev := Ev{}
 	ev.Ent = e.Entity
 	var f1, f2, f3, f4 bool
@@ -409,6 +436,15 @@ func (l *recListener) Notify(w *ecs.World, e ecs.EntityEvent) {
 				ev.ValT, ev.Wrote = t, b
 			}()
 			break
+		}
+	}
+	if l.sink < 0 && s.spawnOn && s.SpawnOK && s.inApply && !s.spawning && l.subs == allSubs && l.comp == nil &&
+		!ev.Locked && !e.Contains(event.EntityRemoved) && ev.AliveAtDelivery && len(s.Spawned) < 2 {
+		// a listener that reacts to a change by creating a companion entity: events come after the change with the
+		// world unlocked, so this is an ordinary creation - in the middle of whatever operation is announcing its events
+		s.spawnSeq++
+		if s.spawnSeq%3 == 1 {
+			s.spawn(w, &e, &ev)
 		}
 	}
 	if l.sink < 0 && s.chaos && e.Contains(event.EntityRemoved) {
@@ -509,6 +545,13 @@ func (l *recListener) Notify(w *ecs.World, e ecs.EntityEvent) {
 			for q.Next() {
 			}
 		}()
+	}
+	if l.sink < 0 && s.detachAt > 0 && e.Contains(event.EntityRemoved) {
+		s.rmSeen++
+		if s.rmSeen == s.detachAt {
+			w.SetListener(nil)
+			s.detached = true
+		}
 	}
 	if l.sink < 0 {
 		s.Events = append(s.Events, ev)
@@ -819,10 +862,33 @@ func (s *Sys) Apply(op *COp) (res Result) {
 		if len(s.kept) > 0 {
 			s.releaseKept()
 		}
+		if s.detached {
+			s.W.SetListener(s.lis)
+			s.detached = false
+			s.DetachSeen++
+		}
+		s.detachAt, s.rmSeen = 0, 0
 	}()
 	w := s.W
 	s.applySeq++
 	s.cloneOf = op.CloneOf
+	s.inApply = true
+	defer func() { s.inApply = false }()
+	if s.chaos && s.dispatch == nil && s.applySeq%4 == 2 && !w.IsLocked() {
+		if rl, ok := s.lis.(*recListener); ok && rl.sink < 0 && rl.subs == allSubs && rl.comp == nil {
+			switch {
+			case op.Kind == "rm":
+				s.detachAt = 1
+			case op.Kind == "batch" && op.Variant == "Batch.RemoveEntities":
+				func() {
+					defer func() { recover() }()
+					q := w.Query(s.filterFor(op))
+					s.detachAt = q.Count()
+					q.Close()
+				}()
+			}
+		}
+	}
 	switch op.Kind {
 	case "new":
 		switch op.Variant {
@@ -1096,4 +1162,59 @@ func (s *Sys) releaseKept() {
 	if trouble != "" && s.KeptTrouble == "" {
 		s.KeptTrouble = trouble
 	}
+}
+
+// spawn creates one entity from inside a notification: with the component set the announced entity has now (its
+// destination table), with the set it had before (the table it came from), or without components.
+func (s *Sys) spawn(w *ecs.World, e *ecs.EntityEvent, ev *Ev) {
+	s.spawning = true
+	defer func() {
+		s.spawning = false
+		if r := recover(); r != nil && s.SpawnTrouble == "" {
+			s.SpawnTrouble = fmt.Sprint(r)
+		}
+	}()
+	cur := w.Ids(e.Entity)
+	variant := (s.spawnSeq / 3) % 3
+	var ids []ecs.ID
+	switch variant {
+	case 0:
+		ids = cur
+	case 1:
+		for _, id := range cur {
+			if !e.Added.Get(id) {
+				ids = append(ids, id)
+			}
+		}
+		ids = append(ids, e.RemovedIDs...)
+	}
+	set, dup, foreign := s.idsToSet(ids)
+	if dup || foreign {
+		return
+	}
+	rel := -1
+	for k := range s.specs {
+		if set&(1<<uint(k)) != 0 && s.specs[k].IsRelation() {
+			rel = k
+		}
+	}
+	var target ecs.Entity
+	if rel >= 0 {
+		switch {
+		case variant == 0:
+			target = ev.TargetAtDelivery
+		case e.OldRelation != nil && *e.OldRelation == s.IDs[rel]:
+			target = e.OldTarget
+		}
+		if !target.IsZero() && !w.Alive(target) {
+			target = ecs.Entity{}
+		}
+	}
+	var h ecs.Entity
+	if rel >= 0 && !target.IsZero() {
+		h = ecs.NewBuilder(w, ids...).WithRelation(s.IDs[rel]).New(target)
+	} else {
+		h = w.NewEntity(ids...)
+	}
+	s.Spawned = append(s.Spawned, Spawn{H: h, Set: set, Target: target})
 }
